@@ -158,7 +158,8 @@ Section Transfer.
     cbn [firstn]. rewrite !rev_diff_one.
     destruct (contains (ptree dst) c) eqn:C.
     - cbn [fst]. rewrite C. cbn. split; congruence.
-    - destruct (put_existing mkdig res true dst (c :: rest) del b) as [p' st] eqn:E. cbn [fst].
+    - destruct (unsendable del b) eqn:U; [cbn [fst]; rewrite C; cbn; split; congruence|].
+      destruct (put_existing mkdig res true dst (c :: rest) del b) as [p' st] eqn:E. cbn [fst].
       destruct (tstatus_eqb st TApplied) eqn:A.
       + assert (st = TApplied) by (destruct st; cbn in A; congruence). subst st.
         pose proof (put_existing_applied _ _ _ _ _ _ _ Td G E c (or_introl (or_introl eq_refl))) as C'.
